@@ -452,6 +452,7 @@ def nontrivial_kernel(line, ans):
     if k in ("licm", "cse"): return ans != "hoisted -"
     if k == "inl": return " m:" in ans
     if k == "lvnw": return True
+    if k == "ivuse": return True
     if k == "lvn": return ans.count(" b ") + ans.startswith("b ") < line.count(" b ")
     if k == "dce": return line.count(" b ") > (0 if ans == "kept -" else ans.count(",") + 1)
     return False
@@ -1393,6 +1394,26 @@ def search_near(ctx, line):
             for b in toks:
                 if t[0] == "ccp" or True:
                     cands.append(f"{t[0]} {t[1]} {a} {b}")
+    elif t[0] == "ivuse":
+        progs = []
+        for pos in ("init", "loopvalue", "guard", "body", "print", "none"):
+            kinit = "i" if pos == "init" else "0"
+            ibound = "i" if pos == "guard" else "4"
+            addend = "i" if pos == "body" else "k"
+            extra, nlv, brk = (" w 0 i", 3, "w") if pos == "loopvalue" else ("", 2, "s")
+            pr = "call print 1 i _ " if pos == "print" else ""
+            progs.append(f"fn f0 2 while 3 i 0 ni last 0 j acc 0 nacc {{ bin cc ge i 5 sif cc 0 {{ brk acc }} {pr}while {nlv} k {kinit} nk s 0 ns{extra} "
+                         f"{{ bin c2 ge k {ibound} sif c2 0 {{ brk {brk} }} bin ns add s {addend} bin nk add k 1 }} r2 bin t add acc last bin nacc add t r2 "
+                         "bin j mul i 3 bin ni add i 1 } r ret r end")
+        lines = [f"prog loop 31 | 0,0;2,1 | {pt}" for pt in progs]
+        outs = run_harness(lines)
+        for l, o in zip(lines, outs):
+            if not o.startswith("ok "):
+                ctx.violation(f"induction-variable elimination removes a counter that a nested loop still reads: {o[:200]}",
+                              {"protocol": "prog", "pass": "loop", "config_bits": 31, "args": [(0, 0), (2, 1)],
+                               "program": l.split("|", 2)[2].strip(), "answer": o})
+                return True
+        return False
     elif t[0] == "lvn":
         # property-level search: one small program per consuming position downstream of a deleted duplicate
         progs = [
@@ -1550,6 +1571,9 @@ def run(ctx):
     only = os.environ.get("C02_ONLY", "")      # diagnosis only: restrict to one stream (kernel|prog|src)
     nk = ctx.scale(8000, 80000) if only in ("", "kernel") else 0
     lines = []
+    if nk:
+        # deterministic: every position at which a nested loop may mention the outer counter
+        lines += [f"ivuse {pos} {b}" for pos in ("none", "init", "loopvalue", "guard", "body", "print") for b in (3, 6)]
     while len(lines) < nk:
         lines += gen_kernel_line(rng)
     kstats, kimpl = run_kernels(ctx, lines, f"generated seed={ctx.seed}") if lines else ({"nontrivial": set(), "known": 0}, [])
@@ -1659,7 +1683,7 @@ def run(ctx):
                                    "tripcount_exact", "tripcount_final_value", "dce_preserves", "licm_no_new_trap",
                                    "lvnSimple_preserves", "lvn_preserves", "lvnL_preserves", "iterLoop_preserves", "lvnLoop_preserves",
                                    "cse_hoist_order", "inlineBody_preserves", "inline_preserves", "ivelim_negative_multiplier_fixed",
-                                   "phases_disjoint", "rounds_invariant", "lowering_disjoint"],
+                                   "phases_disjoint", "rounds_invariant", "lowering_disjoint", "unused_counter_irrelevant"],
         "pending": ["CSE: only trap-freedom/silence of the hoisted prefix is proved (cse_hoist_order); value equivalence of the rewritten branches is validated only",
                     "lvn: proved for blocks of Binary/call/Break, SingleIf and IfElse (with final assignments) over statement blocks, and for a While over such a body (initial values, loop values, every fuel); deeper nesting (loops inside branches, branches inside branches) is validated only",
                     "inlining: proved for a callee whose body is a block of Binary/call statements (fresh-name renaming, parameter substitution, return move); callee bodies with control flow, the cost model and recursion guards are validated only",
